@@ -23,6 +23,20 @@ ChunkStore::ChunkStore(Config config)
         storage_root_ = std::filesystem::path(config.storage_directory.empty() ? "storage" : config.storage_directory);
         if (!ensure_storage_directory()) {
             persistent_enabled_ = false;
+        } else if (wipe_on_expiry_) {
+            // Chunk files are never loaded back, so anything an earlier instance left behind
+            // (clean shutdown, crash in the middle of a store or of a wipe) belongs to no record
+            // and would otherwise outlive its TTL forever.
+            std::error_code ec;
+            std::vector<std::filesystem::path> leftovers;
+            for (const auto& entry : std::filesystem::directory_iterator(storage_root_, ec)) {
+                if (entry.path().extension() == ".chunk") {
+                    leftovers.push_back(entry.path());
+                }
+            }
+            for (const auto& path : leftovers) {
+                secure_wipe_file(path);
+            }
         }
     }
 }
